@@ -199,7 +199,8 @@ func (p *Packet) ReadValue(sample int) int {
 	case []int64:
 		return int(d[sample])
 	default:
-		panic("Oh no! Type of d is not known in Packet.ReadValue()")
+		// Payloads of mixed type (stored as []byte) have no single-sample reading.
+		return 0
 	}
 }
 
